@@ -34,12 +34,17 @@ it:
                 assert(*token == self@[it.index@ as int]);
 //@end
 
+pub open spec fn stmt_info(s: Statement) -> AstInfo {
+    match s {
+        Statement::Empty(i) => i, Statement::If(i) => i.info, Statement::Call(c) => c.info, Statement::While(w) => w.info,
+        Statement::Block(b) => b.info, Statement::Assignment(a) => a.info, Statement::Error(i) => i,
+    }
+}
 //@extract spl_frontend/src/ast.rs :: impl Statement :: fn info
 //@ ret r
 //@ sig
-        ensures *r == (match *self {
-            Statement::Empty(i) => i, Statement::If(i) => i.info, Statement::Call(c) => c.info, Statement::While(w) => w.info,
-            Statement::Block(b) => b.info, Statement::Assignment(a) => a.info, Statement::Error(i) => i }), //# Statement::info::own_info
+        ensures
+            *r == stmt_info(*self), //# Statement::info::own_info
 //@end
 
 //~not_decided C02 as a whole: process liveness, one response per request, termination of analysis, panic sites inside nom closures (parser.rs "Parser cannot fail"), async handlers (goto.rs slicing with table ranges, formatting.rs:340) — all outside both engines
